@@ -19,7 +19,8 @@ EXTENDS Integers, Sequences, FiniteSets, TLC
 
 CONSTANTS P,            \* the property ids whose clauses are enforced
           Relax,        \* known findings (see known_findings.txt) whose exact case is tolerated
-          MaxXorbChunks, MaxXorbBytes, MaxChunk
+          MaxXorbChunks, MaxXorbBytes, MaxChunk,
+          NRanges       \* NRANGES_IN_STREAMING_FRAGMENTATION_ESTIMATOR of the run
 
 VARIABLES clen,      \* [chunk id -> length]
           content,   \* [file -> Seq(chunk id)]
@@ -73,7 +74,12 @@ FileStart(s, f, cs) ==
   /\ clen' = AddLens(cs)
   /\ content' = Put(content, f, Ids(cs)) /\ fsess' = Put(fsess, f, s)
   /\ dec' = Put(dec, f, [new |-> {}, dedup |-> {}, prev |-> {}, pbytes |-> 0, pchunks |-> 0, nbytes |-> 0, dbytes |-> 0,
-                         pend |-> <<>>])        \* pend: chunk ids of the file's pending (not yet cut) xorb
+                         pend |-> <<>>,          \* pend: chunk ids of the file's pending (not yet cut) xorb
+                         \* the fragmentation estimator (deduplication/src/defrag_prevention.rs) and what it is fed with:
+                         \* win = chunk counts of the last NRanges file segments, low = defrag_at_low_threshold,
+                         \* last = (xorb, chunk_index_end) of the last file segment (xorb 0 = the pending xorb, -1 = none),
+                         \* winPrev / lastPrev = the state before the last "new" decision (a cut revises it)
+                         win |-> <<>>, low |-> TRUE, last |-> <<-1, 0>>, winPrev |-> <<>>, lastPrev |-> <<-1, 0>>])
   /\ UNCHANGED <<salt, status, failed, xorbs, stored, sessPut, shardOpen, recs, finished, up, ptrs, cache>>
 
 (* C05: a dedup answer "the first n query hashes are chunks [lo, hi) of X" is truthful.  X is the file's own pending
@@ -85,6 +91,26 @@ Truthful(f, idx, n, ans) ==
      /\ ans.hi - ans.lo = n /\ ans.hi <= Len(X)
      /\ \A i \in 1..n : X[ans.lo + i] = content[f][idx + i]
 
+(* ---- DefragPrevention: rolling window over the chunk counts of the last NRanges file segments.  A dedup hit that
+   does not continue the last segment is rejected iff the window is full, the average chunks per range is below the
+   target (8, or 4 while in the "low threshold" state) and the hit is shorter than the average.  C11 / C14 allow data
+   to be stored again only for this reason, so every rejection must be one the rule makes and no hit the rule lets
+   through may be turned down. ---- *)
+RECURSIVE SumSeq(_, _)
+SumSeq(w, i) == IF i > Len(w) THEN 0 ELSE w[i] + SumSeq(w, i + 1)
+WinFull(w) == Len(w) >= NRanges
+\* avg < target  <=>  total < target * len ;  n < avg  <=>  n * len < total   (exact in integers)
+Rejects(w, low, n) == /\ WinFull(w)
+                      /\ SumSeq(w, 1) < (IF low THEN 4 ELSE 8) * Len(w)
+                      /\ n * Len(w) < SumSeq(w, 1)
+LowAfter(w, low, n) == IF ~WinFull(w) THEN low
+                       ELSE IF SumSeq(w, 1) < (IF low THEN 4 ELSE 8) * Len(w)
+                              THEN (IF n * Len(w) < SumSeq(w, 1) THEN FALSE ELSE low)
+                              ELSE TRUE
+AddRange(w, n) == LET v == Append(w, n) IN IF Len(v) > NRanges THEN SubSeq(v, 2, Len(v)) ELSE v
+IncLast(w, n) == IF w = <<>> THEN w ELSE [w EXCEPT ![Len(w)] = @ + n]
+Continues(d, ans) == d.last[1] = ans.x /\ d.last[2] = ans.lo /\ d.last[1] # -1
+
 (* one classification step of the deduper for chunks [idx, idx+n) of file f *)
 Decision(f, kind, idx, n, bytes, ans) ==
   /\ f \in DOMAIN content /\ n >= 1 /\ idx + n <= Len(content[f])
@@ -94,12 +120,25 @@ Decision(f, kind, idx, n, bytes, ans) ==
      /\ Chk("C05", kind # "new" => (Truthful(f, idx, n, ans) /\ bytes = b))
      /\ CASE kind = "new" ->
                /\ Chk("C14", pos \cap (dec[f].new \cup dec[f].dedup) = {})
-               /\ dec' = [dec EXCEPT ![f].new = @ \cup pos, ![f].nbytes = @ + b, ![f].pend = Append(@, content[f][idx + 1])]
+               \* a new chunk extends the last segment iff that segment is pending and ends at the pending xorb's end
+               /\ LET d == dec[f]
+                      ext == d.last[1] = 0 /\ d.last[2] = Len(d.pend) /\ Len(d.pend) > 0
+                  IN dec' = [dec EXCEPT ![f].new = @ \cup pos, ![f].nbytes = @ + b, ![f].pend = Append(@, content[f][idx + 1]),
+                                        ![f].winPrev = d.win, ![f].lastPrev = d.last,
+                                        ![f].win = IF ext THEN IncLast(d.win, 1) ELSE AddRange(d.win, 1),
+                                        ![f].last = <<0, Len(d.pend) + 1>>]
           [] kind = "dedup" ->
                /\ Chk("C14", pos \cap (dec[f].new \cup dec[f].dedup) = {})
-               /\ dec' = [dec EXCEPT ![f].dedup = @ \cup pos, ![f].dbytes = @ + b]
+               /\ LET d == dec[f] cont == Continues(d, ans) IN
+                  /\ Chk("C11", cont \/ ~Rejects(d.win, d.low, n))           \* (a hit the rule rejects is not used either)
+                  /\ dec' = [dec EXCEPT ![f].dedup = @ \cup pos, ![f].dbytes = @ + b,
+                                        ![f].win = IF cont THEN IncLast(d.win, n) ELSE AddRange(d.win, n),
+                                        ![f].low = IF cont THEN d.low ELSE LowAfter(d.win, d.low, n),
+                                        ![f].last = <<ans.x, ans.hi>>]
           [] kind = "prevented" ->
-               dec' = [dec EXCEPT ![f].prev = @ \cup pos, ![f].pbytes = @ + b, ![f].pchunks = @ + n]
+               /\ LET d == dec[f] IN
+                  /\ Chk("C11", ~Continues(d, ans) /\ Rejects(d.win, d.low, n))    \* withheld only when the rule says so
+                  /\ dec' = [dec EXCEPT ![f].prev = @ \cup pos, ![f].pbytes = @ + b, ![f].pchunks = @ + n, ![f].low = FALSE]
           [] OTHER -> FALSE
   /\ UNCHANGED <<clen, content, fsess, salt, status, failed, xorbs, stored, sessPut, shardOpen, recs, finished, up, ptrs, cache>>
 
@@ -107,7 +146,11 @@ Decision(f, kind, idx, n, bytes, ans) ==
    pending xorb, that chunk becomes its first *)
 Cut(f) ==
   /\ f \in DOMAIN dec /\ Len(dec[f].pend) >= 1
-  /\ dec' = [dec EXCEPT ![f].pend = <<@[Len(@)]>>]
+  \* the chunk of the preceding "new" decision starts the next pending xorb: it cannot have extended the last segment
+  \* (which now carries the name of the xorb that was cut), so the estimator got a new range for it
+  /\ dec' = [dec EXCEPT ![f].pend = <<@[Len(@)]>>,
+                        ![f].win = AddRange(dec[f].winPrev, 1),
+                        ![f].last = <<0, 1>>]
   /\ UNCHANGED <<clen, content, fsess, salt, status, failed, xorbs, stored, sessPut, shardOpen, recs, finished, up, ptrs, cache>>
 
 PutStart(s, x, xref, cs, ok) ==
@@ -228,6 +271,30 @@ Finalize(s, m) ==
                 /\ m.xorb_bytes = up[s].xorb /\ m.shard_bytes = up[s].shard
                 /\ m.uploaded = up[s].xorb + up[s].shard)
   /\ status' = [status EXCEPT ![s] = "ok"]
+  /\ UNCHANGED <<clen, content, fsess, salt, failed, xorbs, stored, sessPut, shardOpen, recs, finished, dec, up, ptrs, cache>>
+
+(* finalize_with_file_info: the file records of the session as the call returns them (before Finalize is observed).
+   Every file finished in the session has a record, no record is of another file, and each record rebuilds its file. *)
+FileInfos(s, files) ==
+  /\ s \in DOMAIN status /\ status[s] = "open"
+  /\ Chk("C01", {files[i].fh : i \in 1..Len(files)} = {finished[f].hash : f \in FilesOf(s)})
+  /\ Chk("C01", \A i \in 1..Len(files) :
+                   /\ files[i].f \in DOMAIN content
+                   /\ \A j \in 1..Len(files[i].segs) : SegOK(files[i].segs[j])
+                   /\ Flatten(files[i].segs, 1) = content[files[i].f])
+  /\ Chk("C02", \A i \in 1..Len(files) : files[i].verif = files[i].verif_ref /\ files[i].sha = files[i].sha_ref)
+  /\ UNCHANGED vars
+
+(* FileUploadSession::dry_run: the session computes everything and sends nothing; it does not promise that its files
+   can be downloaded.  What it leaves behind (its status is not "ok": no clause about stored shards applies) is looked
+   at by the sessions that follow it on the same shard cache: they are held to C16 / C01 as always. *)
+DryFinalize(s, m) ==
+  /\ s \in DOMAIN status /\ status[s] = "open"
+  /\ Chk("C14", /\ m.total = SumField(FilesOf(s), "total") /\ m.new = SumField(FilesOf(s), "new")
+                /\ m.dedup = SumField(FilesOf(s), "dedup") /\ m.prevented = SumField(FilesOf(s), "prevented")
+                /\ m.tc = SumField(FilesOf(s), "tc") /\ m.nc = SumField(FilesOf(s), "nc")
+                /\ m.dc = SumField(FilesOf(s), "dc") /\ m.pc = SumField(FilesOf(s), "pc"))
+  /\ status' = [status EXCEPT ![s] = "dry"]
   /\ UNCHANGED <<clen, content, fsess, salt, failed, xorbs, stored, sessPut, shardOpen, recs, finished, dec, up, ptrs, cache>>
 
 (* upload_async returned Ok: what Finalize requires of the store, without the metrics (the API does not return them) *)
